@@ -233,6 +233,14 @@ def run(ctx):
             spec["integ"] = "linear-rk4"
         K = spec["K"]
         ks = range(1, K) if (ctx.thorough() or spec.pop("many_restarts", False)) else sorted(set(int(v) for v in rng.integers(1, K, size=3 if K < 20 else 8)))
+        if i < nrandom and i % 9 in (0, 4):
+            # directed: logs of more than ten pages at the interruption point (page names ...-log_10 sort before ...-log_2 as strings)
+            pt = 1 + (i % 9 == 4)
+            spec["pitch"] = pt
+            spec["K"] = K = 14 * pt + 3
+            spec["zetas"] = [float(v) for v in 0.2 + 0.8 * rng.random(K + 4)]
+            ks = [11 * pt, 11 * pt + 1, 12 * pt + 1, 14 * pt]
+            ctx.count("restarts_from_logs_of_more_than_ten_pages", len(ks))
         for k in ks:
             a = dict(spec, k=int(k))
             ok, obs, req, text = oracle_restart(a)
